@@ -106,7 +106,8 @@ class Decompiler:
                 exps[wn[2]] = Xor(And(exps[wn[0]], exps[wn[1]]), exps[wn[2]])
             elif isinstance(g, gates.MCX):
                 exps[wn[-1]] = Xor(And(*[exps[ww] for ww in wn[0:-1]]), exps[wn[-1]])
-            elif issubclass(g.__class__, gates.NopGate):
+            elif issubclass(g.__class__, gates.NopGate) or isinstance(g, gates.I):
+                # the identity is one of the ZB_GATES a section is made of: it changes nothing
                 continue
             else:
                 raise Exception(f"Gate not handled for decompilation: {g.__name__}")
